@@ -105,7 +105,8 @@ def run(ctx):
         ctx.mismatch("source audit: `.to_f64()` call sites outside the Gamma draw wrapper and outside `print_debug_info` blocks "
                      "(or a draw wrapper that does not narrow exactly its three scalar arguments)",
                      None, {k: sites.count(k) for k in sorted(set(sites))}, {"draw": 3, "debug": "any"})
-    ss = S.generate(ctx, 14 if ctx.quick else 100, 2 if ctx.quick else 4, max_e=6, max_loops=4, routings_per_graph=1, kinds=("uniform",))
+    ss = S.generate(ctx, 14 if ctx.quick else 100, 3 if ctx.quick else 6, max_e=6, max_loops=4, routings_per_graph=1,
+                    kinds=("uniform", "tiny_xi", "corner"))
     for k, s in enumerate(ss):
         # every other sample runs with the matrix stability test on (a comparison made on the user's type, not a narrowing)
         s["req"] = S.sample_request(s["case"], s["routing"], s["table"], s["xs"], debug=False, meta=True, tol=(1e-6 if k % 2 else None))
